@@ -50,8 +50,8 @@ type handshake struct {
 	// errKind: kind of the error value a failing Read / Write returns (c01.ErrKinds, 0 plain)
 	errKind byte
 	name    string
-	steps []exchange
-	run   func(ctx context.Context, c net.Conn) (*xmpp.Session, error)
+	steps   []exchange
+	run     func(ctx context.Context, c net.Conn) (*xmpp.Session, error)
 }
 
 // duplex is the library's end of the connection.
